@@ -241,10 +241,18 @@ func c13SourceList(c *Ctx, r *Report) {
 func c13CLI(c *Ctx, r *Report) {
 	fn := c.Func("cmd/zlint", "setLints")
 	targets := map[string]string{}
-	for _, call := range callsTo(fn, "(*lint.SourceList).FromString") {
-		a := call.Common().Args
-		dst := apath(a[0])
-		src := apath(a[1])
+	var fsCalls []ssa.CallInstruction
+	type fsSeen struct{ dst, src string }
+	fsPaths := map[ssa.CallInstruction]fsSeen{}
+	allInstrsDeep(fn, func(in ssa.Instruction) {
+		if ci, ok := in.(ssa.CallInstruction); ok && staticCalleeName(ci.Common()) == "(*lint.SourceList).FromString" {
+			fsCalls = append(fsCalls, ci)
+			fsPaths[ci] = fsSeen{apath(ci.Common().Args[0]), apath(ci.Common().Args[1])} // with helper parameters standing for the caller's arguments
+		}
+	})
+	for _, call := range fsCalls {
+		dst := fsPaths[call].dst
+		src := fsPaths[call].src
 		cv, _ := call.(*ssa.Call)
 		if cv == nil {
 			continue
